@@ -410,6 +410,20 @@ def insertAff (base scale ins : V3) (co si : Rat) : Aff :=
     ty := ins.y - si * scale.x * base.x - co * scale.y * base.y
     tz := ins.z - scale.z * base.z }
 
+/-- the matrix of an INSERT in an arbitrary OCS with the axes `ux uy uz` (arbitrary axis algorithm): block point `p` ->
+    `(p.x - base.x) sx (c ux + s uy) + (p.y - base.y) sy (-s ux + c uy) + (p.z - base.z) sz uz + toWcs(insert)`;
+    the same map as C12's `insertMatrix` (Lemmas/BBoxOcs.lean: `ocsAff_eq`) -/
+def ocsAff (ux uy uz base scale ins : V3) (co si : Rat) : Aff :=
+  let ex : V3 := ⟨scale.x * (co * ux.x + si * uy.x), scale.x * (co * ux.y + si * uy.y), scale.x * (co * ux.z + si * uy.z)⟩
+  let ey : V3 := ⟨scale.y * (-si * ux.x + co * uy.x), scale.y * (-si * ux.y + co * uy.y), scale.y * (-si * ux.z + co * uy.z)⟩
+  let ez : V3 := ⟨scale.z * uz.x, scale.z * uz.y, scale.z * uz.z⟩
+  let w : V3 := ⟨ins.x * ux.x + ins.y * uy.x + ins.z * uz.x, ins.x * ux.y + ins.y * uy.y + ins.z * uz.y,
+    ins.x * ux.z + ins.y * uy.z + ins.z * uz.z⟩
+  { xx := ex.x, xy := ey.x, xz := ez.x, yx := ex.y, yy := ey.y, yz := ez.y, zx := ex.z, zy := ey.z, zz := ez.z
+    tx := w.x - (base.x * ex.x + base.y * ey.x + base.z * ez.x)
+    ty := w.y - (base.x * ex.y + base.y * ey.y + base.z * ez.y)
+    tz := w.z - (base.x * ex.z + base.y * ey.z + base.z * ez.z) }
+
 /-- the grid cell of a MINSERT with the unscaled offset `(ox, oy)`: `Insert.multi_insert()` moves the insert point
     by the rotated offset -/
 def gridAff (m : Aff) (co si ox oy : Rat) : Aff :=
@@ -567,6 +581,54 @@ def arcCurveNorm2 (u : Rat) (s : V2) (t : Rat) : Rat :=
   let y := bezier4 cp.1.y cp.2.1.y cp.2.2.1.y cp.2.2.2.y t
   x * x + y * y
 
+/-! ## `path.tools.add_bezier4p` / `add_bezier3p`: curves appended to a path
+
+`near a b` = `a.isclose(b)` (connection test), `same a b` = `a.isclose(b, rel_tol=1e-15, abs_tol=0)` (collapsed control point).
+The curves are taken in the order in which the loop sees them (after the optional `reverse_bezier_curves`). -/
+
+/-- one round of the loop of `add_bezier4p`: a connecting line if the curve does not start at the pen, then a LINE_TO if
+    BOTH inner control points are collapsed into their end points, else the CURVE4_TO -/
+def addBezier4Step (near same : V3 → V3 → Bool) (pen s c1 c2 e : V3) : List Cmd :=
+  (if near s pen then [] else [.lineTo s]) ++ (if same s c1 && same e c2 then [.lineTo e] else [.curve4To c1 c2 e])
+
+/-- one round of the loop of `add_bezier3p`: LINE_TO if the control point is collapsed into the start OR the end point -/
+def addBezier3Step (near same : V3 → V3 → Bool) (pen s c e : V3) : List Cmd :=
+  (if near s pen then [] else [.lineTo s]) ++ (if same s c || same e c then [.lineTo e] else [.curve3To c e])
+
+def addBezier4 (near same : V3 → V3 → Bool) : V3 → List (V3 × V3 × V3 × V3) → List Cmd
+  | _, [] => []
+  | pen, (s, c1, c2, e) :: r => addBezier4Step near same pen s c1 c2 e ++ addBezier4 near same e r
+
+/-! ## `disassemble.Primitive.bbox` by kind of primitive
+
+`make_primitive` looks the class up in `_PRIMITIVE_CLASSES` (unknown types: `EmptyPrimitive`); only `LinePrimitive` and
+`PointPrimitive` override `bbox`, every other class uses `Primitive.bbox`: mesh representation -> box of the mesh vertices,
+path representation -> control vertices (fast) or `precise_bbox` (precise), neither -> empty box. -/
+
+inductive PrimRep where
+  | mesh (vs : List V3)
+  | path (p : Path)
+  | line (a b : V3)
+  | point (p : V3)
+  | none
+deriving Repr
+
+/-- the points whose box is the fast box -/
+def PrimRep.controlPoints : PrimRep → List V3
+  | .mesh vs => vs
+  | .path p => p.controlVertices
+  | .line a b => [a, b]
+  | .point p => [p]
+  | .none => []
+
+/-- `primitive.bbox(fast)` -/
+def PrimRep.box (sb : SegBoxes) (fast : Bool) : PrimRep → Box3
+  | .mesh vs => extents3 vs
+  | .path p => if p.cmds.isEmpty then .empty else p.box sb fast
+  | .line a b => extents3 [a, b]
+  | .point p => extents3 [p]
+  | .none => .empty
+
 /-! ## `rect_vertices` / `cube_vertices` (`none` = ValueError("empty bounding box")) -/
 
 def Box2.rectVertices : Box2 → Option (List V2)
@@ -629,5 +691,21 @@ def inside (w : SelWindow) (b : Box2) : Bool := w.bbox.contains b
 def overlapping (w : SelWindow) (b : Box2) : Bool := w.bbox.hasOverlap b
 def outside (w : SelWindow) (b : Box2) : Bool := !w.bbox.hasOverlap b
 end SelWindow
+
+/-! ## `bulge_to_arc`: the arc of a bulge segment `p1 -> p2` with bulge `b` (`b != 0`), without trigonometry
+
+`r = d (1 + b^2) / (4 b)` (signed), centre `polar(p1, angle(p1, p2) + (pi/2 - 2 atan b), r)`; with
+`cos(pi/2 - 2 atan b) = 2b / (1 + b^2)` and `sin(pi/2 - 2 atan b) = (1 - b^2) / (1 + b^2)` the centre is rational in the
+coordinates: midpoint of the chord plus the left normal of the chord times `(1 - b^2) / (4 b)`. -/
+
+def bulgeCenter (p1 p2 : V2) (b : Rat) : V2 :=
+  ⟨(p1.x + p2.x) / 2 - (p2.y - p1.y) * ((1 - b * b) / (4 * b)), (p1.y + p2.y) / 2 + (p2.x - p1.x) * ((1 - b * b) / (4 * b))⟩
+
+/-- the squared radius `(d (1 + b^2) / (4 b))^2` -/
+def bulgeRadius2 (p1 p2 : V2) (b : Rat) : Rat := dist2 p1 p2 * ((1 + b * b) * (1 + b * b)) / (16 * (b * b))
+
+/-- the apex of the arc: midpoint of the chord moved by the sagitta `b d / 2` along the right normal of the chord -/
+def bulgeApex (p1 p2 : V2) (b : Rat) : V2 :=
+  ⟨(p1.x + p2.x) / 2 + (p2.y - p1.y) * (b / 2), (p1.y + p2.y) / 2 - (p2.x - p1.x) * (b / 2)⟩
 
 end EzdxfVerif.BBox
